@@ -222,7 +222,7 @@ def string_path_ok(tree):
     return all(string_path_ok(c) for c in V.children(tree))
 
 
-def codec_cases(max_depth=3, nulls=True, short_tuples=True, short_udts=False, styles=(0, 0, 1, 2), vias=("direct", "direct", "string")):
+def codec_cases(max_depth=3, nulls=True, short_tuples=True, short_udts=False, styles=(0, 0, 1, 2, 3), vias=("direct", "direct", "string")):
     def mk(tv, pv, style, via):
         if via == "string" and not string_path_ok(tv[0]):
             via = "direct"
